@@ -276,7 +276,7 @@ char *qbase64_encode(const void *bin, size_t size) {
     char *pszB64Pt = pszB64;
     unsigned char *pBinPt, *pBinEnd = (unsigned char *) (bin + size - 1);
     unsigned char szIn[3] = { 0, 0, 0 };
-    int nOffset;
+    size_t nOffset;
     for (pBinPt = (unsigned char *) bin, nOffset = 0; pBinPt <= pBinEnd;
             pBinPt++, nOffset++) {
         int nIdxOfThree = nOffset % 3;
@@ -409,7 +409,7 @@ char *qhex_encode(const void *bin, size_t size) {
 
     unsigned char *pSrc = (unsigned char *) bin;
     char *pHexPt = pHexStr;
-    int i;
+    size_t i;
     for (i = 0; i < size; i++) {
         *pHexPt++ = HEXCHARTBL[(pSrc[i] >> 4)];
         *pHexPt++ = HEXCHARTBL[(pSrc[i] & 0x0F)];
